@@ -107,6 +107,14 @@ fn main() {
                 lines.push(mon::hex(&f));
             }
         }
+        // descriptor strings as receivers send them: blank- and NUL-padded, lone blanks, Latin-1
+        for n in [1007u16, 1008, 1033] {
+            if gen::is_supported(n) {
+                for t in gen::DESCRIPTOR_TEXTS.iter() {
+                    lines.push(mon::hex(&gen::descriptor_frame(n, t)));
+                }
+            }
+        }
         for n in [0u16, 1, 1000, 1018, 1028, 1069, 1070, 1078, 1138, 1229, 1231, 1305, 4094, 4095] {
             lines.push(mon::hex(&gen::any_number_frame(&mut rng, n, 20)));
         }
